@@ -806,8 +806,9 @@ struct elements_iterator_t : boost::multi::random_accessable<elements_iterator_t
 	}
 
 	BOOST_MULTI_HD constexpr auto operator++() -> elements_iterator_t& {
-		std::apply([&xs = this->xs_](auto&... idxs) { return xs.next_canonical(idxs...); }, ns_);
+		bool const wrapped = std::apply([&xs = this->xs_](auto&... idxs) { return xs.next_canonical(idxs...); }, ns_);
 		++n_;
+		if(wrapped) { ns_ = from_linear_(n_); }  // one past the last element: same index tuple as end()
 		return *this;
 	}
 	BOOST_MULTI_HD constexpr auto operator--() -> elements_iterator_t& {
